@@ -316,6 +316,37 @@ func runC09(p *Prog, r *Report) {
 		}
 	}
 
+	// ---- C09.14 the originator's hop count is zero
+	{
+		R := "C09.14/hop-count-starts-at-zero"
+		r.Describe(R, "a cooked PAIR1 / STAR socket sends every message with a hop count of zero: the header it installs before handing the message down is a freshly made (zeroed) 4-byte slice, never storage the message brought along (a message that was received and is sent again still has the hop count it arrived with in that storage)")
+		for _, rel := range []string{"protocol/pair1", "protocol/star"} {
+			f := q.Fn(R, rel, "socket", "SendMsg")
+			if !f.OK() {
+				continue
+			}
+			down := f.Ev("call", "ProtocolBase.SendMsg")
+			var pre Sel
+			for _, e := range f.Ev("store", "arg1.Header") {
+				for _, d := range down {
+					if CanPrecede(blockReach(f.fn), e.At(), d.At()) {
+						pre = append(pre, e)
+						break
+					}
+				}
+			}
+			okAll := len(pre) >= 1 && len(down) == 1
+			bad := ""
+			for _, e := range pre {
+				if !(strings.HasPrefix(e.Args[0], "$makeslice[:4]") || strings.HasPrefix(e.Args[0], "make([],4")) {
+					okAll = false
+					bad = e.Args[0] + " at " + p.InstrPos(e.In)
+				}
+			}
+			r.Check(okAll, R, rel+"/SendMsg", f.Pos(), "Header = make([]byte, 4) before the message goes down", "the header a cooked "+rel+" socket sends is not always a freshly made zeroed slice ("+bad+"): a re-sent message carries its old hop count, which then accumulates per bounce until the peer drops it")
+		}
+	}
+
 	// ---- C09.4 counters advance by one
 	R = "C09.4/one-per-hop"
 	r.Describe(R, "each forwarding step adds exactly one to the hop count: xpair1 stores hops+1, xstar increments byte 3, xrep/xrespondent prepend exactly one 4-byte word holding the pipe id")
